@@ -675,6 +675,9 @@ func (p *c20) execOverride(c c20Case, src []byte, rep *c20Rep) {
 	for _, k := range gotSeq {
 		o.Cell("ovr/seen/" + k)
 	}
+	if len(c.Ovr) > 0 {
+		defer p.execOverrideWrapped(c, src, base, wantSeq, rep)
+	}
 	// nothing but the markers may have changed
 	stripped := c20MarkerRe.ReplaceAllString(out, "")
 	if stripped == base {
@@ -688,6 +691,94 @@ func (p *c20) execOverride(c c20Case, src []byte, rep *c20Rep) {
 	}
 	d := oracle.Diff(w, g, nil)
 	rep.fail("override/changes-other-output", "with the override markers removed the output differs from the output without overrides: %v\n%s", d, head)
+}
+
+var (
+	c20WrapOpenRe  = regexp.MustCompile(`<x-ovw data-ov="([a-z_]+)">\s*`)
+	c20WrapCloseRe = regexp.MustCompile(`</x-ovw>\s*`)
+	c20HeadingIDRe = regexp.MustCompile(`(<h[1-6]) id="[^"]*"`)
+)
+
+// execOverrideWrapped: the user templates put the default markup inside a
+// wrapper element of their own. Every instantiation must arrive whole (its
+// start tag and its end tag), in document order, and with the wrappers' tags
+// removed the output is the output without overrides.
+func (p *c20) execOverrideWrapped(c c20Case, src []byte, base string, wantSeq []string, rep *c20Rep) {
+	o := rep.o
+	defaults := markdown.Templates()
+	files := map[string][]byte{}
+	for _, name := range c.Ovr {
+		def, err := fs.ReadFile(defaults, "markdown/"+name+".vuego")
+		if err != nil {
+			return
+		}
+		files["markdown/"+name+".vuego"] = []byte(`<x-ovw data-ov="` + name + `">` + string(def) + `</x-ovw>`)
+	}
+	var b bytes.Buffer
+	err := markdown.New(fstestBytes(files)).RenderBytes(&b, src)
+	o.Evals++
+	out := b.String()
+	head := fmt.Sprintf("overridden (default markup inside <x-ovw data-ov=NAME>...</x-ovw>): %v\nsource: %q\nwith overrides: %q | without: %q", c.Ovr, clip(string(src), 400), clip(out, 700), clip(base, 700))
+	if err != nil {
+		rep.fail("override/wrapped/render-error", "RenderBytes returned an error: %v\n%s", err, head)
+		return
+	}
+	var gotSeq []string
+	for _, m := range c20WrapOpenRe.FindAllStringSubmatch(out, -1) {
+		gotSeq = append(gotSeq, m[1])
+	}
+	if strings.Join(wantSeq, " ") != strings.Join(gotSeq, " ") {
+		rep.fail("override/wrapped/wrong-instances", "template instantiations in document order: want %v got %v\n%s", wantSeq, gotSeq, head)
+		return
+	}
+	if nc := len(c20WrapCloseRe.FindAllString(out, -1)); nc != len(gotSeq) {
+		rep.fail("override/wrapped/end-tags-lost", "%d wrapper start tags but %d wrapper end tags: part of a user template's output is missing\n%s", len(gotSeq), nc, head)
+		return
+	}
+	stripped := c20WrapCloseRe.ReplaceAllString(c20WrapOpenRe.ReplaceAllString(out, ""), "")
+	// raw HTML of the document that leaves a formatting element open makes the
+	// HTML parser re-open it around every later piece of white space; the
+	// comparison of the two trees then compares formatting, not templates
+	for el := range c20Formatting {
+		if strings.Count(base, "<"+el+">")+strings.Count(base, "<"+el+" ") != strings.Count(base, "</"+el+">") {
+			o.Cell("ovr/wrapped/unbalanced-raw-html-not-compared")
+			return
+		}
+	}
+	// a heading's id is derived from the markup of its content, wrappers and
+	// the white space around them included: not judged here
+	w, g := oracle.Parse(c20HeadingIDRe.ReplaceAllString(base, "$1"), false), oracle.Parse(c20HeadingIDRe.ReplaceAllString(stripped, "$1"), false)
+	// where a wrapper's tags stood the serialiser's line breaks remain: white
+	// space is not compared in this form (the marker form above compares it)
+	c20SquashWS(w)
+	c20SquashWS(g)
+	if w.Canon() == g.Canon() {
+		o.Cell("ovr/wrapped/rest-dom-identical")
+		return
+	}
+	d := oracle.Diff(w, g, nil)
+	rep.fail("override/wrapped/changes-other-output", "with the wrappers' tags removed the output differs from the output without overrides: %v\n%s", d, head)
+}
+
+// c20SquashWS removes every white space character from the text nodes of a tree.
+func c20SquashWS(n *oracle.N) {
+	kids := n.Kids[:0]
+	for _, k := range n.Kids {
+		if k.Kind == "text" {
+			k.Text = strings.Join(strings.Fields(k.Text), "")
+			if k.Text == "" {
+				continue
+			}
+			if len(kids) > 0 && kids[len(kids)-1].Kind == "text" {
+				kids[len(kids)-1].Text += k.Text
+				continue
+			}
+		} else {
+			c20SquashWS(k)
+		}
+		kids = append(kids, k)
+	}
+	n.Kids = kids
 }
 
 func fstestBytes(files map[string][]byte) fs.FS {
